@@ -132,5 +132,5 @@ ASSUMPTIONS = ["(scenario, size) pairs outside merge.blockzero_safe are skipped 
 
 def main(tier):
     n = 400 if tier == "quick" else 20000
-    cap = 300 if tier == "quick" else 7200
+    cap = 300 if tier == "quick" else 1500
     return engine.run_check(PROP, "c12", tier, n, cap, "exploration", RULE, ASSUMPTIONS)
